@@ -8,8 +8,9 @@
     src/solver/bundle.cpp:17-30        bundle_t::moveto / append                   -> `appendStep true/false` (moveto = serious
                                                                                       append + the centre becomes `(y, fy)`)
     src/solver/bundle.cpp:6-15         constructor = serious append on the empty bundle -> `init`
+    src/solver/bundle.cpp:32-55        bundle_t::solve, sizes 1 and 2 (analytic)   -> `solve1`, `solve2` (size >= 3: QP ORACLE)
     src/solver/bundle.cpp:88-94        delete_inactive(epsilon0)                   -> `active`
-    src/solver/bundle.cpp:96-130       delete_largest(2), store/append_aggregate   -> `reduce` (threshold = ORACLE, see below)
+    src/solver/bundle.cpp:96-130       delete_largest(2), store/append_aggregate   -> `reduce`, `NthElement` (threshold = ORACLE, see below)
     include/nano/solver/bundle.h:61-81 smeared_e, smeared_s, delta, proximal       -> `smearedE`, `smearedS`, `delta`, `proximal`
     src/solver/bundle.cpp:175-189      econverged / sconverged (tol = eps*sqrt(n)) -> `tol`, `econverged`, `sconverged`
     src/solver/csearch.cpp:34-130      csearch_t::search (one pass of the loop)    -> `csearchStep`, `newTrial`
@@ -19,8 +20,10 @@
   the implementation and logged by the trace hooks):
     * the objective: `(fy, gy)` at the trial point `y`;
     * the multipliers `alphas` = solution of the quadratic sub-problem of `bundle_t::solve` (contract: a point of the simplex);
-    * the threshold of `delete_largest`: `std::nth_element` leaves the element read at index `count` unspecified, so which of
-      the active pairs survive is only known to be `{i | e_i <= thres}` for SOME `thres` — any sub-collection in the theorems.
+    * the threshold of `delete_largest`: `std::nth_element` leaves the element read at index `min(count, size - count)`
+      unspecified (only bounded by the element at `size - count`), so which of the active pairs survive is `{i | e_i < thres}`
+      for an oracle value `thres` — any sub-collection in the lower-bound theorems, at least `count` removed in
+      `append_stays_below_capacity`.
 -/
 namespace NanoVerif.Bundle
 
@@ -98,18 +101,47 @@ def active (eps0 : α) : List (Pair α) → List α → List (Pair α × α)
   | p :: ps, a :: as => if a < eps0 then active eps0 ps as else (p, a) :: active eps0 ps as
   | _, _ => []
 
-/-- `remove_if(e_i > thres)` of `delete_largest` -/
-def deleteAbove (thres : α) (act : List (Pair α × α)) : List (Pair α) :=
-  (act.filter (fun pa => !decide (thres < pa.1.e))).map (·.1)
+/-- `remove_if(e_i >= thres)` of `delete_largest` (bundle.cpp:108-109): the rows that stay -/
+def deleteFrom (thres : α) (act : List (Pair α × α)) : List (Pair α) :=
+  (act.filter (fun pa => !decide (thres ≤ pa.1.e))).map (·.1)
+
+/-- the `count` of `delete_largest(2)` (bundle.cpp:140) -/
+def delCount : Nat := 2
 
 /-- `delete_inactive(epsilon0); delete_largest(2)` (bundle.cpp:139-140). `capacity = max_size + 1`. When the bundle is
     full after the inactive rows were dropped, the aggregate of the ACTIVE rows (with their multipliers) is stored first,
-    the rows with `e_i > thres` are deleted and the aggregate is appended. -/
+    the rows with `e_i >= thres` are deleted and the aggregate is appended.
+    `thres = m_alphas(min(count, size - count))` is read from the buffer that `std::nth_element(first, first + (size - count),
+    last)` has reordered: which element sits at that index is unspecified, so `thres` is an ORACLE value here, constrained
+    by `NthElement` below (it is never larger than the count-th largest error, hence at least `count` rows go). -/
 def reduce (capacity : Nat) (eps0 thres : α) (n : Nat) (pairs : List (Pair α)) (alphas : List α) : List (Pair α) :=
   let act := active eps0 pairs alphas
   if act.length + 1 = capacity then
-    deleteAbove thres act ++ [aggregate n (act.map (·.1)) (act.map (·.2))]
+    deleteFrom thres act ++ [aggregate n (act.map (·.1)) (act.map (·.2))]
   else act.map (·.1)
+
+/-- the contract of `std::nth_element(first, first + k, last)` on the copy `a` of the errors `orig`: a permutation, nothing
+    before position `k` exceeds `a[k]`, nothing from `k` on is below it -/
+def NthElement (k : Nat) (orig a : List α) (ak : α) : Prop :=
+  a.Perm orig ∧ a[k]? = some ak ∧ (∀ x ∈ a.take k, x ≤ ak) ∧ (∀ y ∈ a.drop k, ak ≤ y)
+
+/-- `bundle_t::solve` for `m_size == 2` (bundle.cpp:41-55): the analytic minimiser of the quadratic over the segment.
+    `fin` is `std::isfinite` (always true in exact arithmetic unless `q = 0`; any predicate in the theorems). -/
+def solve2 (fin : α → Bool) (miu : α) (p0 p1 : Pair α) : List α :=
+  let q00 := dot p0.s p0.s
+  let q01 := dot p0.s p1.s
+  let q10 := dot p1.s p0.s
+  let q11 := dot p1.s p1.s
+  let c0 := miu * p0.e
+  let c1 := miu * p1.e
+  let q := q00 + q11 - q01 - q10
+  let p := (q01 + q10) / 2 - q11 + c0 - c1
+  let b := -p / q
+  let a := if fin b && decide (0 ≤ b) && decide (b ≤ 1) then b else (if 0 < q / 2 + p then 0 else 1)
+  [a, 1 - a]
+
+/-- `bundle_t::solve` for `m_size == 1` (bundle.cpp:37-40) -/
+def solve1 : List α := [1]
 
 /-- one full call `bundle_t::append(y, gy, fy, serious)` (+ the centre update of `moveto`) -/
 def appendFull (capacity : Nat) (eps0 thres : α) (n : Nat) (serious : Bool) (b : State α) (alphas : List α)
